@@ -48,6 +48,18 @@ var specs = map[string]spec{
 		},
 		Assumptions: commonAssumptions, Plain: true, QuickStride: 1, ThoroughStride: 1, QuickDeadline: 420, ThoroughDeadline: 3000,
 	},
+	"C02": {
+		LevelText: "bounded exhaustive enumeration of template bundles built from a command grammar whose variable names are forced to collide (params, lets and loop variables all named x or y), rendered by the real implementation for every data assignment and compared with an independent reference interpreter that implements block scoping and call-data rules",
+		LevelNote: "the reference interpreter and rule checker (harness/ref_cmd.go, DESIGN.md Appendix A) are the trusted base; only rule-abiding programs are generated (the same reference checker is validated against the compiler in C07)",
+		Technique: "bounded exhaustive exploration of programs x data against a reference interpreter",
+		Level:     "model_checking",
+		Rule:      "a state is a distinct generated bundle (entry template body x param-declaration style x file order); a transition is one render compared with the reference interpreter (counter renders); non-trivial = at least one data set for which the reference defines the output",
+		Bounds: map[string]string{
+			"quick":    "bodies: all lists of <=3 of 12 leaf statements; pre+block+post with 11 block kinds over all inner lists of <=2 leaves; two nested blocks over inner lists of <=1 leaf; up to 18 data assignments each; 2 files, alias/FQ/relative names, soydoc and header params, both file orders",
+			"thorough": "two nested blocks over inner lists of <=2 leaves",
+		},
+		Assumptions: commonAssumptions, Plain: true, QuickStride: 1, ThoroughStride: 2, QuickDeadline: 420, ThoroughDeadline: 3000,
+	},
 	"C05": {
 		LevelText: "bounded exhaustive exploration of the real parser: every input of the stated small scopes is parsed under a controlled scheduler with a deterministic linear fuel bound (no wall clock), and small inputs under every parser/scanner interleaving up to 2 preemptions; termination, no panic, no deadlock and tree-xor-error are checked on every execution and every case is replayed on the uninstrumented build",
 		LevelNote: "assumes the bounded scopes are representative (small-scope hypothesis) and that the overlay instrumentation preserves behaviour (cross-checked case by case against the plain build)",
